@@ -210,6 +210,11 @@ func (s *FastModularNetworkSolver) recursiveActivateNode(currentNode int) (res b
 		}
 	}
 
+	if s.biasNeuronCount > 0 {
+		// append BIAS value to the signal if appropriate
+		s.neuronSignalsBeingProcessed[currentNode] += s.biasList[currentNode]
+	}
+
 	// Mark this neuron as completed
 	s.activated[currentNode] = true
 
